@@ -37,6 +37,7 @@ type HarnessResult struct {
 	Vars        int            `json:"symbolic_inputs_max"`
 	Switches    int            `json:"goroutine_switches"`
 	Group       int            `json:"-"`
+	SelfSamples []SelfSample   `json:"-"`
 	CrossChecked int           `json:"cross_checked_obligations"`
 	CrossSolver  string        `json:"cross_solver,omitempty"`
 	CrossSeconds float64       `json:"cross_solver_s"`
@@ -78,6 +79,7 @@ func (e *Exec) runPath(pkg *ssa.Package, fn *ssa.Function, prefix []Decision) (r
 	e.unwind = e.cfg.Unwind
 	e.mapOrderAny = false
 	e.observed = nil
+	e.observedT = nil
 	e.model = nil
 	e.allowPanic = false
 	e.allowDeadlock = false
@@ -148,6 +150,51 @@ func (e *Exec) runPath(pkg *ssa.Package, fn *ssa.Function, prefix []Decision) (r
 			res.Reaches = append(res.Reaches, k)
 		}
 		res.Inputs = e.inputs
+	}()
+	defer func() {
+		// translation validation sample: a model of the finished path and the
+		// observation values under it
+		if r := recover(); r != nil {
+			panic(r)
+		}
+		if e.selfWant > 0 && len(e.observedT) > 0 && !e.replaying() {
+			// reservoir sampling over the worker's returned paths (deterministic)
+			e.selfSeen++
+			slot := len(e.selfSamples)
+			if slot >= e.selfWant {
+				h := uint64(e.selfSeen) * 0x9e3779b97f4a7c15
+				h ^= h >> 29
+				slot = int(h % uint64(e.selfSeen))
+				if slot >= e.selfWant {
+					return
+				}
+			}
+			if sr, m := e.solver.Check(e.pc, nil, true); sr == Sat {
+				ss := SelfSample{Model: map[string]uint64{}}
+				for _, in := range e.inputs {
+					ss.Model[in] = m[in]
+				}
+				memo := map[int32]uint64{}
+				for _, o := range e.observedT {
+					if o.bytes {
+						buf := make([]byte, len(o.terms))
+						for i, t := range o.terms {
+							buf[i] = byte(t.Eval(m, memo))
+						}
+						ss.Observations = append(ss.Observations, fmt.Sprintf("%s=%x", o.name, buf))
+					} else {
+						t := o.terms[0]
+						v := t.Eval(m, memo)
+						ss.Observations = append(ss.Observations, fmt.Sprintf("%s=%d", o.name, v))
+					}
+				}
+				if slot < len(e.selfSamples) {
+					e.selfSamples[slot] = ss
+				} else {
+					e.selfSamples = append(e.selfSamples, ss)
+				}
+			}
+		}
 	}()
 	if init := pkg.Func("init"); init != nil {
 		if e.ld.initAllowed(pkg) {
@@ -233,6 +280,7 @@ func runHarness(ld *Loaded, cfg Config, pkg *ssa.Package, fn *ssa.Function, work
 				return
 			}
 			e.harness = fn.Name()
+			e.selfWant = cfg.SelfSamples
 			defer func() {
 				mu.Lock()
 				s := e.solver.Stats
@@ -243,6 +291,7 @@ func runHarness(ld *Loaded, cfg Config, pkg *ssa.Package, fn *ssa.Function, work
 				hr.Solver.Seconds += s.Seconds
 				hr.Solver.Errors += s.Errors
 				hr.Solver.Restarts += s.Restarts
+				hr.SelfSamples = append(hr.SelfSamples, e.selfSamples...)
 				hr.CrossChecked += e.crossChecked
 				if e.cross != nil {
 					hr.CrossSolver = e.cross.kind
